@@ -459,6 +459,7 @@ def tree_state():
 
 def run_harness(scenarios, tag, timeout=900):
     os.makedirs(RUNDIR, exist_ok=True)
+    tag = "%s_p%d" % (tag, os.getpid())      # several checks (C06, C16, C09, other trees) may run at the same time
     cf = os.path.join(RUNDIR, "cases_%s.json" % tag)
     of = os.path.join(RUNDIR, "impl_%s.out" % tag)
     json.dump({"scenarios": [{k: v for k, v in s.items() if k != "defs"} for s in scenarios]}, open(cf, "w"))
@@ -475,6 +476,10 @@ def run_harness(scenarios, tag, timeout=900):
             except ValueError:
                 continue
             res.setdefault(d["scn"], []).append(d)
+    if not os.environ.get("VERIF_C06_KEEP"):
+        for f in (cf, of, ov):
+            if os.path.exists(f):
+                os.remove(f)
     return res, note, dt
 
 
@@ -651,6 +656,10 @@ def check_scenario(scn, lines):
         for tn, t in st["tags"].items():
             for c in t["conv"]:
                 attached.setdefault(c, []).append(tn)
+        # a tag that keeps converters matches on neither stream data nor other tags (attachConverterToTag, UpdateTag)
+        for tn, t in st["tags"].items():
+            if t["conv"] and (((t["mf"] | t["sf"]) & F_DATA) or t["mt"] or t["st"]):
+                F.append(Finding("C16", "converter-on-complex-tag", name, i, {"tag": tn, "def": t["def"], "conv": t["conv"]}))
         for c, m in st["cache"].items():
             for sid_s, out in m.items():
                 sid = int(sid_s)
@@ -932,13 +941,19 @@ def model_cases(scn, lines, kfs, per_line):
 
 
 def run_model(exe, text, tag):
+    os.makedirs(RUNDIR, exist_ok=True)
+    tag = "%s_p%d" % (tag, os.getpid())      # see run_harness
     cf = os.path.join(RUNDIR, "model_%s.txt" % tag)
     of = os.path.join(RUNDIR, "model_%s.out" % tag)
     open(cf, "w").write("\n".join(text) + "\n")
     rc, out, _ = run([exe, cf, of], timeout=600)
     if rc != 0:
-        return None, "model driver rc=%d: %s" % (rc, out[-800:])
-    return [l.rstrip("\n") for l in open(of)], ""
+        return None, "model driver rc=%d: %s (input kept: %s)" % (rc, out[-800:], cf)
+    lines = [l.rstrip("\n") for l in open(of)]
+    if not os.environ.get("VERIF_C06_KEEP"):
+        os.remove(cf)
+        os.remove(of)
+    return lines, ""
 
 
 # ---------------------------------------------------------------------------- known findings
@@ -1009,7 +1024,9 @@ def shared_run(tier, seed):
         scns = scenarios_for(tier, seed)
         res, note, dt = run_sharded(scns, "main", 6 if tier == "quick" else 12, timeout=600 if tier == "quick" else 3000)
         out = {"scenarios": scns, "results": res, "note": note, "go_s": dt, "wall_s": time.time() - t0, "key": key}
-        json.dump(out, open(cache, "w"))
+        tmp = "%s.%d.tmp" % (cache, os.getpid())
+        json.dump(out, open(tmp, "w"))
+        os.replace(tmp, cache)
         for fn in os.listdir(RUNDIR):   # keep the directory small
             pth = os.path.join(RUNDIR, fn)
             if fn.startswith("shared_") and pth != cache and time.time() - os.path.getmtime(pth) > 7200:
